@@ -106,7 +106,7 @@ Definition ubucket : bucket := mkB BUninit [].
 
 Definition bget (h : head) (i : N) : bucket := nth (N.to_nat i) (h_buckets h) ubucket.
 
-Fixpoint upd_nth {A} (n : nat) (x : A) (l : list A) : list A :=
+Fixpoint upd_nth {A} (n : nat) (x : A) (l : list A) {struct l} : list A :=
   match l with
   | [] => []
   | y :: l' => match n with O => x :: l' | S n' => y :: upd_nth n' x l' end
@@ -426,6 +426,12 @@ Definition mstep (m : kmap) (o : top) : kmap * tres :=
   end.
 
 Definition minit : kmap := mkKM [] 0.
+
+Fixpoint mrun (m : kmap) (ops : list top) : kmap * list tres :=
+  match ops with
+  | [] => (m, [])
+  | o :: ops' => let (m1, r) := mstep m o in let (m2, rs) := mrun m1 ops' in (m2, r :: rs)
+  end.
 
 (* ------------------------------------------------------------------ what the table means *)
 
